@@ -80,6 +80,8 @@ def _clone(v, memo):
             return memo[id(v)]
         n = SymObject(v.cls, None, v.name)
         n.module = getattr(v, 'module', None)
+        if hasattr(v, 'mro'):
+            n.mro = v.mro
         memo[id(v)] = n
         n.attrs = {k: _clone(x, memo) for k, x in v.attrs.items()}
         return n
@@ -441,13 +443,25 @@ class Executor(object):
             return tuple(self._merge_val(c, x, y, memo)
                          for x, y in zip(va, vb))
         if isinstance(va, SymObject) and isinstance(vb, SymObject):
-            if va.cls != vb.cls or set(va.attrs) != set(vb.attrs):
+            if va.cls != vb.cls:
+                raise _NoMerge()
+            lazy = getattr(self, 'lazy_attrs', False)
+            if set(va.attrs) != set(vb.attrs) and not lazy:
                 raise _NoMerge()
             n = SymObject(va.cls, None, va.name)
             n.module = getattr(va, 'module', None)
+            if hasattr(va, 'mro'):
+                n.mro = va.mro
             memo[key] = n
-            n.attrs = {k: self._merge_val(c, va.attrs[k], vb.attrs[k], memo)
-                       for k in va.attrs}
+            n.attrs = {}
+            for k in set(va.attrs) | set(vb.attrs):
+                if k in va.attrs and k in vb.attrs:
+                    n.attrs[k] = self._merge_val(c, va.attrs[k], vb.attrs[k],
+                                                 memo)
+                else:
+                    # lazily created attribute: a fixed symbol named after
+                    # the attribute, identical on every path
+                    n.attrs[k] = va.attrs.get(k, vb.attrs.get(k))
             return n
         if isinstance(va, SymArray) and isinstance(vb, SymArray):
             n = SymArray(va.name, z3.If(c, va.arr, vb.arr) if not
@@ -965,6 +979,11 @@ class Executor(object):
                 r = self.find_method(base, a)
                 if r is not None:
                     return _BoundMethod(base, r[0], r[1], r[2])
+            if getattr(self, 'lazy_attrs', False):
+                # an instance attribute the contract leaves arbitrary
+                v = z3.Real('%s.%s' % (base.name, a))
+                base.attrs[a] = v
+                return v
             raise VCError('attribute %s of %r at %s' % (a, base,
                                                         self.where(node)))
         if isinstance(base, Opaque):
